@@ -103,8 +103,11 @@ func (p *KPlan) Valid() bool {
 			}
 		}
 	}
-	if len(p.RecvHard) > 0 && p.Scenario != 8 && p.Scenario != 16 {
+	if len(p.RecvHard) > 0 && p.Scenario != 8 && p.Scenario != 16 && p.Scenario != 17 {
 		return false
+	}
+	if p.Scenario == 16 && len(p.Tasks) > 0 && len(p.SendErr) > 0 {
+		return false // the two-client setter tasks are judged by counting datagrams per socket
 	}
 	for _, n := range p.RecvHard {
 		if n < 0 {
@@ -113,7 +116,7 @@ func (p *KPlan) Valid() bool {
 	}
 	if p.Scenario == 17 {
 		for _, f := range p.Faults {
-			if f.Stale || f.DelayNs != 0 {
+			if f.Stale || f.DelayNs > 2e9 {
 				return false
 			}
 		}
@@ -128,7 +131,7 @@ func (p *KPlan) Valid() bool {
 		if f.Errno < 0 || f.Errno > 4095 || f.UnsolBefore < 0 || f.UnsolAfter < 0 || f.UnsolMid < 0 || f.UnsolBefore > 6 || f.UnsolAfter > 6 || f.UnsolMid > 6 {
 			return false
 		}
-		if f.DelayNs < 0 || f.DelayNs > 450e6 || f.DataTrunc < 0 || f.DataPad < 0 || f.AckShort < 0 || f.Spoof < 0 || f.Spoof > 2 {
+		if f.DelayNs < 0 || (f.DelayNs > 450e6 && p.Scenario != 17) || f.DataTrunc < 0 || f.DataPad < 0 || f.AckShort < 0 || f.Spoof < 0 || f.Spoof > 2 {
 			return false
 		}
 		if f.DelayNs > 0 {
@@ -182,6 +185,11 @@ func (p *KPlan) Valid() bool {
 // byte strings; lengths vary so that buffer reuse shows).
 func ruleBytes(id uint32) []byte {
 	n := 8 + int(id*7)%90
+	if id >= 30 {
+		// rules as large as a message may be: requests (and the error ACKs that echo
+		// them) around the size of the 8986-byte read buffer
+		n = []int{8930, 8933, 8934, 8935, 8949, 8950, 8951, 8966, 8969, 8970, 4000}[(id-30)%11]
+	}
 	b := make([]byte, n)
 	for i := range b {
 		b[i] = byte(0x10 + (int(id)*31+i*7)%0xC0)
@@ -191,6 +199,14 @@ func ruleBytes(id uint32) []byte {
 }
 
 var boundaryU32 = []uint32{0, 1, 2, 63, 64, 8192, 1<<31 - 1, 1 << 31, 1<<32 - 1, 0x01020304, 0xA1B2C3D4}
+
+// ruleID draws a rule id: mostly one of twelve small rules, now and then a very large one.
+func ruleID(r *core.Rng) uint32 {
+	if r.Chance(1, 10) {
+		return uint32(r.Range(30, 40))
+	}
+	return uint32(r.Intn(12))
+}
 
 func genFaults(r *core.Rng, n int, p *KPlan, errnoPct, unsolPct, stalePct, delayPct int) {
 	for i := 0; i < n; i++ {
@@ -242,7 +258,7 @@ func genSendErr(r *core.Rng, n int, p *KPlan) {
 	for i := 0; i < n; i++ {
 		e := 0
 		if r.Chance(1, 5) {
-			e = core.Pick(r, 105, 111, 1, 4)
+			e = core.Pick(r, 105, 111, 1, 4, 90, 12, 11)
 		}
 		p.SendErr = append(p.SendErr, e)
 	}
@@ -294,7 +310,7 @@ func genInit(r *core.Rng, p *KPlan) {
 		p.Status[kern.WFailure] = uint32(r.Intn(3))
 	}
 	for k := r.Intn(5); k > 0; k-- {
-		id := uint32(r.Intn(12))
+		id := ruleID(r)
 		dup := false
 		for _, x := range p.InitRules {
 			if x == id {
@@ -327,9 +343,9 @@ func GenKPlanC08(r *core.Rng) *KPlan {
 		case 1:
 			p.Ops = append(p.Ops, KOp{K: kGetRules})
 		case 2:
-			p.Ops = append(p.Ops, KOp{K: kAddRule, A: uint32(r.Intn(12))})
+			p.Ops = append(p.Ops, KOp{K: kAddRule, A: ruleID(r)})
 		case 3:
-			p.Ops = append(p.Ops, KOp{K: kDeleteRule, A: uint32(r.Intn(12))})
+			p.Ops = append(p.Ops, KOp{K: kDeleteRule, A: ruleID(r)})
 		case 4:
 			p.Ops = append(p.Ops, KOp{K: kDeleteRules})
 		default:
@@ -481,6 +497,10 @@ func GenKPlanC16(r *core.Rng) *KPlan {
 		// transient receive failures (an empty poll between two datagrams)
 		genRecv(r, 6*n, p, core.Pick(r, 20, 50))
 	}
+	if r.Chance(1, 8) && len(p.Tasks) == 0 {
+		// some sendto calls fail (ENOBUFS, ECONNREFUSED, EPERM, EINTR); the commands after them are ordinary
+		genSendErr(r, n+4, p)
+	}
 	return p
 }
 
@@ -500,7 +520,7 @@ func GenKPlanC17(r *core.Rng) *KPlan {
 	for i := 0; i < n; i++ {
 		switch r.Weighted(w...) {
 		case 5:
-			p.Ops = append(p.Ops, KOp{K: kDeleteRule, A: uint32(r.Intn(12))})
+			p.Ops = append(p.Ops, KOp{K: kDeleteRule, A: ruleID(r)})
 		case 0:
 			op := genSetter(r)
 			if op.K == kSetImmutable {
@@ -513,10 +533,22 @@ func GenKPlanC17(r *core.Rng) *KPlan {
 		case 2:
 			p.Ops = append(p.Ops, KOp{K: kGetRules})
 		case 3:
-			p.Ops = append(p.Ops, KOp{K: kAddRule, A: uint32(r.Intn(12))})
+			p.Ops = append(p.Ops, KOp{K: kAddRule, A: ruleID(r)})
 		default:
 			p.Ops = append(p.Ops, KOp{K: kGetStatus})
 		}
+	}
+	if r.Chance(1, 12) {
+		// many requests in NoWait mode before anybody waits for their ACKs
+		for k := core.Pick(r, 15, 16, 17, 18, 33, 65, 130); k > 0; k-- {
+			op := genSetter(r)
+			if op.K == kSetImmutable || op.K == kSetPID {
+				op = KOp{K: kSetRateLimit, A: r.U32()}
+			}
+			op.NoWait = true
+			p.Ops = append(p.Ops, op)
+		}
+		p.Ops = append(p.Ops, KOp{K: kWaitAcks})
 	}
 	if r.Chance(1, 3) {
 		p.Ops = append(p.Ops, KOp{K: kWaitAcks})
@@ -555,8 +587,28 @@ func GenKPlanC17(r *core.Rng) *KPlan {
 			p.CloseErr = append(p.CloseErr, core.Pick(r, 4, 4, 5, 0))
 		}
 	}
-	if r.Chance(1, 3) {
+	if r.Chance(1, 8) {
+		// ACKs that arrive late: later than one whole WaitForPendingACKs call polls
+		// (10 x 50 ms), or just inside it; whoever waits again later must get them
+		for i := range p.Faults {
+			if r.Chance(1, 3) {
+				p.Faults[i].DelayNs = core.Pick[int64](r, 300e6, 450e6, 600e6, 1e9, 2e9)
+			}
+		}
+		for i := 0; i < len(p.Ops); i++ {
+			if p.Ops[i].K == kWaitAcks && r.Chance(1, 2) {
+				p.Ops = append(p.Ops[:i+1:i+1], append([]KOp{{K: kWaitAcks}}, p.Ops[i+1:]...)...)
+				i++
+			}
+		}
+	} else if r.Chance(1, 3) {
 		genRecv(r, 6*n, p, 20)
+	}
+	if r.Chance(1, 8) {
+		// a receive fails hard with ENOBUFS (the socket's queue overran) somewhere in the run
+		for k := r.Range(1, 2); k > 0; k-- {
+			p.RecvHard = append(p.RecvHard, r.Intn(4*n+4))
+		}
 	}
 	p.Auto = core.Pick(r, uint32(0), 0, 1, 2, 4)
 	p.AutoSalt = r.U32()
